@@ -56,6 +56,11 @@ def result_fates(prog, path_re):
             if not et and dt.startswith('std::task::Poll<std::result::Result<'):
                 et = err_type(dt[len('std::task::Poll<'):-1])
                 awaited = True
+            item = False
+            if not et and dt.startswith('std::task::Poll<std::option::Option<std::result::Result<'):
+                # an item of a child stream (`for_await`, `stream.next().await`): Poll::Ready(Some(Result<chunk, E>))
+                et = err_type(dt[len('std::task::Poll<std::option::Option<'):-2])
+                awaited = item = True
             if not et:
                 continue
             d = c.dest
@@ -64,11 +69,35 @@ def result_fates(prog, path_re):
             if awaited:
                 # `x.await`: the Result is moved out of Poll::Ready(..); judge the fate of that payload
                 payloads = [st['lhs']['l'] for _, st in b.stmts() if st.get('rv', {}).get('rv') == 'use'
-                            and st['rv']['op']['k'] == 'move' and st['rv']['op']['pl']['l'] == d['l']
-                            and any(p.startswith('as:Ready') for p in st['rv']['op']['pl']['p']) and not st['lhs']['p']]
+                            and st['rv']['op']['k'] in ('move', 'copy') and st['rv']['op']['pl']['l'] == d['l']
+                            and any(p.startswith('as:Ready') for p in st['rv']['op']['pl']['p']) and not st['lhs']['p']
+                            and not item]
+                if item:
+                    # the Option<Result<..>> may be moved around before it is matched: follow plain moves of it
+                    opts, todo = {d['l']}, [d['l']]
+                    while todo:
+                        x = todo.pop()
+                        for _, st in b.stmts():
+                            rv = st.get('rv', {}) if st['s'] == 'assign' else {}
+                            if rv.get('rv') == 'use' and rv['op']['k'] in ('move', 'copy') and rv['op']['pl']['l'] == x and not st['lhs']['p'] \
+                                    and not any(p in ('as:Some', 'as:Ok', 'as:Err') for p in rv['op']['pl']['p']) and st['lhs']['l'] not in opts:
+                                opts.add(st['lhs']['l'])
+                                todo.append(st['lhs']['l'])
+                    payloads = [st['lhs']['l'] for _, st in b.stmts() if st['s'] == 'assign' and st.get('rv', {}).get('rv') == 'use'
+                                and st['rv']['op']['k'] in ('move', 'copy') and st['rv']['op']['pl']['l'] in opts and not st['lhs']['p']
+                                and 'as:Some' in st['rv']['op']['pl']['p'] and not any(p in ('as:Ok', 'as:Err') for p in st['rv']['op']['pl']['p'])]
+                    # ... or matched in place: `while let Some(Ok(chunk)) = s.next().await`
+                    for i_, bl_ in enumerate(b.blocks):
+                        t_ = bl_['term']
+                        if t_['k'] == 'switch' and (t_.get('adt') or '').startswith('std::result::Result') and t_.get('on') \
+                                and t_['on']['l'] in opts and 'as:Some' in t_['on']['p']:
+                            payloads.append(('switch', i_, t_))
                 fs = set()
                 for pl_ in payloads:
-                    fs |= fate(b, pl_, classify, classify_switch=result_switch_fate)
+                    if isinstance(pl_, tuple):
+                        fs.add(result_switch_fate(b, pl_[1], pl_[2]))
+                    else:
+                        fs |= fate(b, pl_, classify, classify_switch=result_switch_fate)
                 if not payloads:
                     fs = {'propagated'}   # the poll result is handed on as a whole
                 bad = sorted(f for f in fs if f == 'dropped' or f.startswith('swallowed'))
